@@ -157,6 +157,8 @@ class var_induct(Tactic):
         inst = matcher.first_order_match(th_args[0], var)
         inst[f.name] = P
         As, _ = th.prop.subst_norm(inst).strip_implies()
+        # Only the assumptions of the induction theorem: the goal itself may be an implication.
+        As = As[:len(th.assums)]
         pts = [ProofTerm.sorry(Thm(A, goal.hyps)) for A in As]
         return ProofTerm("apply_induct", (th_name, var, goal.prop), pts)
 
